@@ -309,6 +309,71 @@ Section Verify.
 End Verify.
 
 (* ------------------------------------------------------------------------------------- *)
+(* The verified-transaction cache and the entry points that write to it                   *)
+(* verify.TxnGroup (cache.Add after the batch verified), verify.PaysetGroups (worksets cut by
+   worksetBuilder.next; per workset: prep of every group, batch verification, THEN
+   cache.AddPayset), txnSigBatchProcessor.ProcessBatch (stream verifier: the groups whose prep
+   passed and none of whose own signatures failed are added).  The cache is abstracted to the
+   list of remembered groups (capacity / pinning only ever forget entries). *)
+Definition group : Type := list stxn.
+
+(* worksetBuilder.next: groups are taken while the running transaction count stays within
+   txnPerWorksetThreshold = 32; a first group that is larger on its own is taken alone *)
+Fixpoint take_ws (l : list group) (counter : nat) (first : bool) : list group * list group :=
+  match l with
+  | [] => ([], [])
+  | g :: r =>
+      if (32 <? counter + length g)%nat then (if first then ([g], r) else ([], g :: r))
+      else let '(w, rest) := take_ws r (counter + length g) false in (g :: w, rest)
+  end.
+
+Fixpoint ws_split (fuel : nat) (l : list group) : list (list group) :=
+  match fuel with
+  | O => []
+  | S f => match l with
+           | [] => []
+           | _ => let '(w, rest) := take_ws l 0 true in w :: ws_split f rest
+           end
+  end.
+Definition worksets (l : list group) : list (list group) := ws_split (length l) l.
+
+Inductive cop : Type :=
+| CTxnGroup (g : group)                                   (* verify.TxnGroup(g, hdr, cache, ...) *)
+| CPayset (unverified : list group) (ran : list bool)     (* verify.PaysetGroups; ran: which worksets
+                                                             completed before the call was aborted *)
+| CBatch (gs : list group).                               (* ProcessBatch on these jobs *)
+
+Section Cache.
+  Variable sig_ok : bytes -> bytes -> bytes -> bool.
+  Variable pq_ok : bytes -> bytes -> bytes -> bytes -> bool.
+  Variable H : bytes -> bytes.
+  Variable p : vparams.
+
+  Definition gvalid (g : group) : bool :=
+    match verify_group sig_ok pq_ok H p g with VOk => true | VErr _ _ _ => false end.
+  Definition ws_ok (w : list group) : bool := forallb gvalid w.
+  (* PaysetGroups returns nil iff every workset passed *)
+  Definition payset_ok (unverified : list group) : bool := forallb ws_ok (worksets unverified).
+
+  Definition cstep (c : list group) (o : cop) : list group :=
+    match o with
+    | CTxnGroup g => if gvalid g then g :: c else c
+    | CPayset unv ran =>
+        let ws := worksets unv in
+        if forallb ws_ok ws then concat ws ++ c
+        else concat (map snd (filter (fun x => fst x && ws_ok (snd x)) (combine ran ws))) ++ c
+    | CBatch gs => filter gvalid gs ++ c
+    end.
+  Definition crun (ops : list cop) : list group := fold_left cstep ops [].
+
+  (* block validation (ledger/eval validator.run): what the cache does not vouch for goes to
+     PaysetGroups; [remembered c g] abstracts GetUnverifiedTransactionGroups' per-group answer *)
+  Variable remembered : list group -> group -> bool.
+  Definition validate (c : list group) (payset : list group) : bool :=
+    payset_ok (filter (fun g => negb (remembered c g)) payset).
+End Cache.
+
+(* ------------------------------------------------------------------------------------- *)
 (* Evaluator side: BlockEvaluator.TransactionGroup with transaction()                     *)
 
 (* AuthAddr of the accounts the group touches as senders (zero = not rekeyed); an address that
